@@ -5,10 +5,16 @@ From Coq Require Import List NArith Bool.
 From Quill Require Import Queue.BQDefs Backend.BEDefs Backend.BEExec Backend.BEInv Backend.BECount TieC08.
 Import ListNotations.
 Local Open Scope N_scope.
-From Quill Require TieBE ExpectedBE.
+From Quill Require TieBE ExpectedBE TieC11.
 
 (* T-src: the BackendWorker methods this property's part of M-BE re-states are, statement by statement, the ones the model
    was written against and compared with (ExpectedBE.v; the whole loop is tied in Properties_C03.C03_tie_backend_loop) *)
+(* T-src: LoggerImpl::log_statement - which refused calls count as a drop (ordinary Log events only), the drop / retry
+   branches and their order - is the function FClock / FReg / FTry of M-BE re-state *)
+Theorem C08_tie_log_statement : QuillGen.SrcFacts.sk_logger_log_statement = Quill.TieC11.expected_log_statement.
+Proof. exact Quill.TieC11.src_log_statement_skeleton. Qed.
+Print Assumptions C08_tie_log_statement.
+
 Theorem C08_tie_backend_methods :
   QuillGen.SrcFacts.sk_be_cleanup_invalidated_thread_contexts = Quill.ExpectedBE.sk_be_cleanup_invalidated_thread_contexts /\
   QuillGen.SrcFacts.sk_be_poll = Quill.ExpectedBE.sk_be_poll.
